@@ -304,6 +304,7 @@ type Exec struct {
 	outcomes []PathOutcome
 	seen     map[string]bool
 	recvVal  ssa.Value
+	phiBusy  map[ssa.Value]bool // phis being evaluated (loop-carried values)
 }
 
 func (ri *ResultInfo) Run(rc Receive, in AbsRes) ([]PathOutcome, []string) {
@@ -358,6 +359,14 @@ func (ex *Exec) resultOf(v ssa.Value, st execState) (cellState, bool) {
 			}
 		}
 	case *ssa.Phi:
+		if ex.phiBusy[x] {
+			return cellState{}, false // loop-carried: not a constant
+		}
+		if ex.phiBusy == nil {
+			ex.phiBusy = map[ssa.Value]bool{}
+		}
+		ex.phiBusy[x] = true
+		defer delete(ex.phiBusy, x)
 		// all edges must agree
 		var first *cellState
 		for _, e := range x.Edges {
@@ -414,6 +423,14 @@ func (ex *Exec) errOf(v ssa.Value, st execState) (nonNil bool, known bool) {
 	case *ssa.Extract:
 		return true, true
 	case *ssa.Phi:
+		if ex.phiBusy[x] {
+			return false, false // loop-carried error variable: unknown
+		}
+		if ex.phiBusy == nil {
+			ex.phiBusy = map[ssa.Value]bool{}
+		}
+		ex.phiBusy[x] = true
+		defer delete(ex.phiBusy, x)
 		any, all := false, true
 		for _, e := range x.Edges {
 			nn, ok := ex.errOf(e, st)
